@@ -278,6 +278,20 @@ async fn episode(p: &EpParams, mt: bool) -> EpReport {
         tasks.push(tokio::spawn(publisher(mk(&w), ta.clone(), n, rng.fork(1), max_batch, mt)));
         shape.push(format!("pub{}", n));
     }
+    if prof == Profile::C08 && rng.chance(1, 6) {
+        // one request far larger than any internal batching threshold races the other publishers:
+        // its messages must stay contiguous and in request order as well
+        let cx = mk(&w);
+        let t = ta.clone();
+        let n = rng.range(1001, 2600);
+        let mut r = rng.fork(9);
+        tasks.push(tokio::spawn(async move {
+            jitter(&mut r, mt).await;
+            let msgs: Vec<Msg> = (0..n).map(|j| Msg::tagged(&format!("c{}#big.{}", cx.id, j))).collect();
+            let _ = cx.publish(&t, &msgs).await;
+        }));
+        shape.push("pubbig".into());
+    }
     if two_topics {
         tasks.push(tokio::spawn(publisher(mk(&w), tb.clone(), rng.range(2, 5), rng.fork(2), 3, mt)));
         tasks.push(tokio::spawn(puller(mk(&w), sb.clone(), rng.range(3, 8), rng.fork(3), Arc::clone(&pool), vec![1, 3, 100], 2, mt, allow_modify)));
